@@ -35,7 +35,7 @@ R = [
     (r"^Document::get_outlines$", r"unwrap", r"node", "SAFE", "dominated by `node.is_none() -> return`"),
     (r"^Document::get_pages::\{closure#0\}$", r"overflow:Add", r"i,1", "SAFE", "i enumerates yielded pages (< objects.len() <= usize::MAX/size_of object)"),
     (r"^Document::get_toc::\{closure#[01]\}$", r"bounds", r"len\(x\),[01]", "SAFE", "x is a chunk of chunks_exact(2)/chunks(2) taken after an odd length was rejected", [{'kind': 'dominating', 'cond': '^Ne\\(BitAnd\\(len\\(&\\$\\d+\\),1\\),0\\)$', 'truth': False, 'where': 'parent'}]),
-    (r"^Encoding::bytes_to_string$", r"overflow", r"", "SAFE", "considered_source_code accumulates at most 4 bytes base 256 (reset when bytes_in_considered_code reaches 4), fits u32", [{'kind': 'exists', 'fn': 'Encoding::bytes_to_string', 'cond': '^Eq\\(\\$\\d+,4\\)$'}]),
+    (r"^Encoding::bytes_to_string$", r"overflow", r"", "SAFE", "considered_source_code accumulates at most 4 bytes base 256 (reset when bytes_in_considered_code reaches 4), fits u32", [{'kind': 'exists', 'fn': 'Encoding::bytes_to_string', 'cond': '^Eq\\(\\$\\d+,4\\)$'}, {'kind': 'reset-together', 'fn': 'Encoding::bytes_to_string', 'limit': 4, 'factor': 256}]),
     (r"^Encoding::bytes_to_string::\{closure#0\}$", r"op-trait", r"(div|rem)\(it,256\)", "SAFE", "u16 / 256 and % 256 with a constant non-zero divisor"),
     (r"^ObjectStream::new$", r"index:RangeTo", r"numbers.*len", "SAFE", "len = numbers.len() / 2 * 2 <= numbers.len()", [{'kind': 'call-arg', 'fn': 'ObjectStream::new', 'callee': 'ops::Index::index$', 'arg': 1, 'matches': 'RangeTo\\{\\$\\d+\\}'}]),
     (r"^ObjectStream::new::\{closure#3\}$", r"bounds", r"len\(chunk\),[01]", "SAFE", "chunks of (par_)chunks(2) over an even-length prefix have exactly 2 elements", [{'kind': 'call-arg', 'fn': 'parent', 'callee': '(par_chunks|slice::<impl \\[T\\]>::chunks)$', 'arg': 1, 'matches': '^2$'}, {'kind': 'call-arg', 'fn': 'parent', 'callee': 'ops::Index::index$', 'arg': 1, 'matches': 'RangeTo\\{\\$\\d+\\}'}, {'kind': 'call-arg', 'fn': 'parent', 'callee': '(par_chunks|slice::<impl \\[T\\]>::chunks)$', 'arg': 0, 'matches': 'index\\(&\\$\\d+,RangeTo::RangeTo\\{\\$\\d+\\}\\)'}]),
